@@ -155,6 +155,10 @@ def check(ctx):
     ctx.ob("R2", "async_reset::lands-in-first-trigger", "self._spa_descriptors = None" in txt and "self._spa_state = GeckoSpaState.IDLE" in txt,
            "async_reset does not produce (IDLE, descriptors None), the driver's first trigger", reset.loc)
 
+    # (b') the reset must complete even though it runs inside the ping-loop task it cancels
+    from .c10 import reset_survives_self_cancel
+    reset_survives_self_cancel(ctx, repo, "R2")
+
     # ---- R3 loss reported ---------------------------------------------------------------
     pl = repo.method("GeckoAsyncSpa", "_ping_loop")
     gp = cfg_of(pl)
